@@ -191,7 +191,9 @@ func pctAll(s string) string {
 // ---------------------------------------------------------------------------------------------
 // hostile strings: exactly one class of dangerous byte per case
 
-var injClasses = []string{"CRLF", "LF", "CR", "NUL", "other-CTL", "none"}
+// "LF-then-CR": line-break bytes in the other order and mixed (a scrubber that starts at the first
+// CR, or handles only the pair, leaves some of them)
+var injClasses = []string{"CRLF", "LF", "CR", "LF-then-CR", "NUL", "other-CTL", "none"}
 
 const injSafe = gen.AlphaNum + ` ;",=:%\/<>()[]{}'-_.~!*+&?#@^|` + "\t"
 
@@ -244,6 +246,8 @@ func payload(r *gen.Rand, class string) string {
 		return gen.Pick(r, []string{"\n", "\nX-Evil: 1", "\n\n<b>early</b>", "\n x"})
 	case "CR":
 		return gen.Pick(r, []string{"\r", "\rX-Evil: 1", "\r\r"})
+	case "LF-then-CR":
+		return gen.Pick(r, []string{"\nX-Evil: 1\r", "\n\r", "\nX-Evil: 1\r\n", "\n\nearly\r\n", "\nSet-Cookie: evil=1\rx", "\n x\r\r\n"})
 	case "NUL":
 		return "\x00"
 	case "other-CTL":
@@ -325,6 +329,7 @@ func runInject(e *ev.Env) {
 		{"cookie-path-twice-percent-encoded-crlf", "Cookie.Path", "/%0d%250d%250aSet-Cookie:x=y", "", 0}, // decoded again after the scrubbing
 		{"cookie-path-double-encoded-only", "Cookie.Path", "/x%250d%250aX-Evil:%201", "", 0},
 		{"location-percent-encoded-crlf-stays-encoded", "Location", "/x%0d%0aX-Evil:%201", "", 0},
+		{"location-lf-before-cr", "Location", "/x\nX-Evil: 1\r", "", 0},
 		{"cookie-domain-crlf", "Cookie.Domain", "d\r\nX-Evil: 1", "", 0},
 		{"clearcookie-crlf", "ClearCookie", "k\r\nX-Evil: 1", "k2", 0},
 		{"set-nul", "Set", "a\x00b", "", 0},
@@ -510,7 +515,7 @@ func injectCase(e *ev.Env, c *ev.Case, h *helper, a injArgs, class string) {
 		detail["parse_error"] = perr.Error()
 		detail["at_header"] = headerAt(out, perr.Off)
 		if isFlash {
-			if name, after := injectedLine(out); name != "" {
+			if name, after := injectedLine(out, []byte(a.V+"\n"+a.W)); name != "" {
 				detail["header"] = name
 				report(c, "wellformed|injected-header-line|after:"+after, "a header line named by the value appears after "+h.name, detail)
 				return
